@@ -66,7 +66,8 @@ DOCUMENTED = ["typing.ClassVar", "t.ClassVar", "ClassVar", "typing_extensions.Cl
 ANN_PLAIN = ["int", "str", '"int"', "t.List[int]", "typing.Optional[int]"]
 ANN_CLASSVAR = ["ClassVar[int]", "typing.ClassVar[int]", "t.ClassVar[int]", "typing_extensions.ClassVar[int]",
                 '"ClassVar[int]"', '"typing_extensions.ClassVar[int]"', "\"'ClassVar[int]'\"",
-                "'\"typing.ClassVar\"'", '"t.ClassVar"']
+                "'\"typing.ClassVar\"'", '"t.ClassVar"', "'\"ClassVar[int]\"'", "'\"t.ClassVar[int]\"'",
+                "\"'ClassVar[int]\\\"\""]
 ANN_DECOY = ['"ClassVarX"', "\"'int\"", '"Optional[ClassVar[int]]"', "\"'\"", '"int\'"', '" ClassVar"']
 
 
@@ -194,7 +195,7 @@ def ann_string(text, future):
         ns = {"typing": typing, "t": typing, "ClassVar": typing.ClassVar,
               "typing_extensions": __import__("typing_extensions")}
         src = ("from __future__ import annotations\n" if future else "") + "class _P:\n    x: %s\n" % text
-        exec(compile(src, "<c07-ann-probe>", "exec"), ns)
+        exec(compile(src, "<c07-ann-probe>", "exec", dont_inherit=True), ns)
         _ann_cache[key] = str(ns["_P"].__dict__["__annotations__"]["x"])
     return _ann_cache[key]
 
@@ -471,7 +472,7 @@ def exec_class(env, spec):
     src = ("from __future__ import annotations\n" if env.future else "") + render_class(spec, env.future)
     env.ns.pop("K%d" % i, None)
     try:
-        exec(compile(src, "<%s K%d>" % (env.name, i), "exec"), env.ns)
+        exec(compile(src, "<%s K%d>" % (env.name, i), "exec", dont_inherit=True), env.ns)
         cls = env.ns["K%d" % i]
     except BaseException as e:  # noqa: BLE001 - the class of the exception is the observation
         if isinstance(e, (KeyboardInterrupt, SystemExit)):
@@ -936,12 +937,28 @@ def rerun(inp):
     return mk_case(inp)
 
 
+def _guard(fn):
+    def run():
+        try:
+            return fn()
+        except BaseException as e:  # noqa: BLE001 - a reproducer that crashes has found something
+            if isinstance(e, (KeyboardInterrupt, SystemExit)):
+                raise
+            return "reproducer raised %s: %s" % (type(e).__name__, e)
+    run.__name__ = getattr(fn, "__name__", "corpus")
+    return run
+
+
 def corpus():
     import importlib.util
     spec = importlib.util.spec_from_file_location("verif_defects", os.path.join(vlib.VERIF, "corpus", "defects.py"))
     m = importlib.util.module_from_spec(spec)
     spec.loader.exec_module(m)
-    return [(k, f) for k, f in m.ALL.items() if "_C07_" in k]
+    out = [(k, _guard(f)) for k, f in m.ALL.items() if "_C07_" in k]
+    # runtime-only observations (object identity / mutation of Python containers: nothing a
+    # Gallina model can express); run as named reproducers so that --replay works for them
+    out += [(k, _guard(f)) for k, f in RUNTIME.items()]
+    return out
 
 
 def EXHAUSTIVE(tier):
@@ -972,91 +989,109 @@ def distribution(cases):
 
 
 # --------------------------------------------------------------------------------------
-# runtime-only observations (no model can express object identity / mutation of Python containers)
+# runtime-only observations (no model can express object identity / mutation of Python
+# containers).  Each function sweeps front-end x slots x collection mode and returns None or
+# a description of the first deviation.
 
 
-def extra(tier, seed):
-    from .vlib import Discrepancy
-    rng = random.Random(seed ^ 0xC07)
-    out = []
-    n = 0
+def _rt_matrix():
+    for style in ("attrs", "define", "make_class"):
+        for slots in (False, True):
+            for by_mro in (False, True):
+                md = {"k": 7, "l": [1]}
+                vlist = [V["v1"], V["v2"]]
+                these = {"p": attr.ib(default=1, metadata=md, validator=vlist), "q": attr.ib(default=2)}
+                if style == "attrs":
+                    C = attr.s(these=these, slots=slots)(type("C", (), {}))
+                elif style == "define":
+                    C = attrs.define(these=these, slots=slots)(type("C", (), {}))
+                else:
+                    C = attr.make_class("C", these, slots=slots)
+                D = attr.s(collect_by_mro=by_mro, slots=slots)(type("D", (C,), {"r": attr.ib(default=3)}))
+                yield "%s slots=%s by_mro=%s" % (style, slots, by_mro), C, D, md, vlist, these
 
-    def bad(kind, what, detail):
-        out.append(Discrepancy({"kind": kind}, "runtime-only observation: " + what, {"runtime": kind, "detail": detail}))
 
-    for rnd in range(60 if tier == "quick" else 400):
-        md = {"k": rng.randrange(100), "l": [1]}
-        md_snapshot = dict(md)
-        vlist = [V["v1"], V["v2"]]
-        these = {"p": attr.ib(default=1, metadata=md, validator=vlist), "q": attr.ib(default=2)}
-        slots = rng.random() < 0.5
-        style = rng.choice(["attrs", "define", "make_class"])
-        if style == "attrs":
-            C = attr.s(these=these, slots=slots)(type("C", (), {}))
-        elif style == "define":
-            C = attrs.define(these=these, slots=slots)(type("C", (), {}))
-        else:
-            C = attr.make_class("C", these, slots=slots)
-        D = attr.s(collect_by_mro=rng.random() < 0.5)(type("D", (C,), {"r": attr.ib(default=3)}))
-        before = [(a.name, a.validator, dict(a.metadata)) for a in attr.fields(C)]
-        before_d = [(a.name, dict(a.metadata)) for a in attr.fields(D)]
+def rt_attribute_frozen():
+    for label, C, D, *_ in _rt_matrix():
+        for K in (C, D):
+            for a in attr.fields(K):
+                for fld, val in (("name", "zz"), ("default", 5), ("metadata", {}), ("inherited", True),
+                                 ("alias", "u"), ("validator", None), ("kw_only", True), ("brand_new", 1)):
+                    try:
+                        setattr(a, fld, val)
+                    except FrozenInstanceError:
+                        continue
+                    return "%s: Attribute.%s of field %s could be assigned" % (label, fld, a.name)
+            try:
+                attr.fields(K)[0] = attr.fields(K)[0]
+            except TypeError:
+                pass
+            else:
+                return "%s: the fields() tuple accepted an item assignment" % label
+
+
+def rt_metadata_readonly_and_isolated():
+    for label, C, D, md, _vl, _th in _rt_matrix():
+        snap = {"k": 7, "l": [1]}
         for K in (C, D):
             a = attr.fields(K).p
-            n += 1
-            for fld, val in (("name", "zz"), ("default", 5), ("metadata", {}), ("inherited", True), ("alias", "u")):
-                try:
-                    setattr(a, fld, val)
-                    bad("attribute-setattr", "Attribute.%s could be assigned" % fld, {"class": style})
-                except FrozenInstanceError:
-                    pass
-                except Exception as e:  # noqa: BLE001
-                    bad("attribute-setattr", "assignment raised %s instead of FrozenInstanceError" % type(e).__name__,
-                        {"class": style})
-            n += 1
             if type(a.metadata) is not types.MappingProxyType:
-                bad("metadata-proxy", "metadata is not a mappingproxy", {"type": type(a.metadata).__name__})
+                return "%s: metadata is a %s, not a mappingproxy" % (label, type(a.metadata).__name__)
             try:
                 a.metadata["new"] = 1
-                bad("metadata-proxy", "metadata mapping accepted an item assignment", {})
             except TypeError:
                 pass
-            try:
-                attr.fields(K)[0] = a
-                bad("fields-tuple", "fields() tuple accepted an item assignment", {})
-            except TypeError:
-                pass
-        # later mutation of the user's containers
+            else:
+                return "%s: the metadata mapping accepted an item assignment" % label
+            if type(attr.fields(K).q.metadata) is not types.MappingProxyType or len(attr.fields(K).q.metadata):
+                return "%s: empty metadata is not an empty mappingproxy" % label
         md["k"] = "changed"
         md["extra"] = 1
+        del md["l"]
+        for K in (C, D):
+            if dict(attr.fields(K).p.metadata) != snap:
+                return "%s: metadata of %s.p follows later mutation of the dict passed to attr.ib: %r" % (
+                    label, K.__name__, dict(attr.fields(K).p.metadata))
+
+
+def rt_these_and_validators_isolated():
+    for label, C, D, _md, vlist, these in _rt_matrix():
+        before = [(a.name, a.validator, a.default) for a in attr.fields(C)]
         vlist.append(V["v3"])
+        del vlist[0]
         del these["q"]
         these["zz"] = attr.ib()
-        n += 1
-        after = [(a.name, a.validator, dict(a.metadata)) for a in attr.fields(C)]
-        if [x[0] for x in after] != ["p", "q"] or [x.name for x in attr.fields(D)] != ["p", "q", "r"]:
-            bad("these-isolation", "fields changed after the these= dict was mutated", {"after": [x[0] for x in after]})
-        if dict(attr.fields(C).p.metadata) != md_snapshot or dict(attr.fields(D).p.metadata) != md_snapshot:
-            bad("metadata-isolation", "metadata follows later mutation of the dict passed to attr.ib",
-                {"seen": repr(dict(attr.fields(C).p.metadata)), "expected": repr(md_snapshot)})
-        n += 1
+        these["p"] = attr.ib(default=99)
+        after = [(a.name, a.validator, a.default) for a in attr.fields(C)]
+        if before != after or [a.name for a in attr.fields(C)] != ["p", "q"]:
+            return "%s: fields(C) changed after the these= dict / validator list was mutated" % label
+        if [a.name for a in attr.fields(D)] != ["p", "q", "r"] or list(attr.fields_dict(D)) != ["p", "q", "r"]:
+            return "%s: fields of the subclass changed after the these= dict was mutated" % label
         v = attr.fields(C).p.validator
-        if len(getattr(v, "_validators", ())) != 2:
-            bad("validator-isolation", "validator list mutation after attr.ib() changed the field's validators",
-                {"n": len(getattr(v, "_validators", ()))})
-        if before != after or before_d != [(a.name, dict(a.metadata)) for a in attr.fields(D)]:
-            bad("fields-stable", "fields()/metadata changed after mutation of user containers", {})
-        # deletion of an attribute of an Attribute object
-        n += 1
+        if tuple(getattr(v, "_validators", ())) != (V["v1"], V["v2"]):
+            return "%s: the validator list passed to attr.ib is aliased by the field" % label
+        d = attr.fields_dict(C)
+        d["new"] = 1
+        if list(attr.fields_dict(C)) != ["p", "q"]:
+            return "%s: fields_dict() hands out shared state" % label
+
+
+def rt_attribute_delattr():
+    for label, C, D, *_ in _rt_matrix():
         a = attr.fields(D).r
         try:
             del a.alias
-            gone = not hasattr(a, "alias")
-            object.__setattr__(a, "alias", "r")
-            if gone and not any(d.sig.get("kind") == "attribute-delattr" for d in out):
-                out.append(Discrepancy({"kind": "attribute-delattr"},
-                                       "runtime-only observation: `del fields(C).x.alias` succeeded on an Attribute",
-                                       {"runtime": "attribute-delattr",
-                                        "detail": "Attribute blocks __setattr__ but not __delattr__"}))
         except (FrozenInstanceError, AttributeError, TypeError):
-            pass
-    return out, {"runtime_observations": n}
+            continue
+        gone = not hasattr(a, "alias")
+        object.__setattr__(a, "alias", "r")
+        if gone:
+            return "%s: `del fields(D).r.alias` succeeded: Attribute blocks __setattr__ but not __delattr__" % label
+
+
+RUNTIME = {
+    "RT_C07_attribute_frozen": rt_attribute_frozen,
+    "RT_C07_metadata_readonly_and_isolated": rt_metadata_readonly_and_isolated,
+    "RT_C07_these_and_validators_isolated": rt_these_and_validators_isolated,
+    "RT_C07_attribute_delattr": rt_attribute_delattr,
+}
